@@ -21,8 +21,8 @@ pub const SPEC15: PropSpec = PropSpec {
 	level: "fault_enumeration",
 	rule: "case = history of up to 40 writer calls over {serialize ok, serialize failing inside the value at a random depth (after bytes were emitted), serialize_all with a failing element in the middle, push_serialized, finish_block, inner()/inner_mut() inspection} ending with into_inner or drop, x approx_block_size in {0,1,small,default,large} x 6 codecs; the sink is a shared buffer inspected after EVERY call (= every point at which the process could stop): it must parse as a complete container file under the reference parser and decode to a prefix (in order) of the successfully serialized values; after finish_block / into_inner / drop to exactly all of them; failed values contribute nothing; conservation invariant through hook H4: ok_values == values_in_sink + n_elements_in_block. distinct by hash(schema shape, history kinds, final file)",
 	assumptions: &["the sync marker is fixed; which block boundaries the writer chooses is free"],
-	cases: (4_000, 600_000),
-	secs: (60, 900),
+	cases: (50_000_000, 4_000_000_000),
+	secs: (30, 900),
 	required: &["quiescent_points_checked", "failed_values_in_history", "failure_as_first_value_of_block", "histories_ended_by_drop", "histories_ended_by_into_inner", "conservation_checked"],
 	run_case: run_case15,
 	once: None,
@@ -320,8 +320,8 @@ pub const SPEC16: PropSpec = PropSpec {
 	level: "fault_enumeration",
 	rule: "case = small file (schema, values, op pattern, codec, approx_block_size) written first to Vec<u8> (reference bytes, same sync marker), then to sinks accepting k bytes per write call for k in {1,2,3,7,16,17,19,4096} and random k per call, in two variants (own write_vectored spanning slices / std's default first-slice-only), then with `Interrupted` injected at EVERY write-call index of one schedule (exhaustive over the call indices of that run), then with a hard error and with Ok(0) injected at every call index: bytes must equal the reference bytes; after a hard error / Ok(0) some writer call (build, serialize, finish_block, into_inner) must return Err. distinct by hash(file bytes, schedule, fault index)",
 	assumptions: &["in debug builds Drop deliberately panics when its final flush fails: after an injected hard fault the writer is not dropped and only the failing call's Result is judged"],
-	cases: (1_500, 300_000),
-	secs: (60, 900),
+	cases: (50_000_000, 4_000_000_000),
+	secs: (30, 900),
 	required: &["schedules_equal", "interrupted_points_enumerated", "hard_error_points_enumerated", "zero_write_points_enumerated", "spanning_vectored_writes", "partial_write_inside_header", "partial_write_inside_sync"],
 	run_case: run_case16,
 	once: None,
